@@ -56,6 +56,10 @@ QKeys   == IF ChainOnly THEN {"a"} ELSE Keys           \* keys QMetaData calls m
 (* Focus "qmdpath": one long derivation path of Select and QMetaData steps on one key (a value set, changed and *)
 (* set back again on different nodes of the path)                                                            *)
 PathFocus == Focus = "qmdpath"
+(* Focus "cross": two datasets; a chain of Select steps on the second one, into which the query of the FIRST dataset is *)
+(* embedded as the body of a lambda (a second dataset node, not on the source chain, possibly shallower than the root); *)
+(* executions must still go to the executor of the dataset at the root of the source chain                              *)
+CrossFocus == Focus = "cross"
 QVals   == IF PathFocus THEN {1, 2} ELSE IF ChainOnly THEN {1, 3} ELSE Vals
 Ovrs    == IF ChainOnly THEN {FALSE} ELSE BOOLEAN
 Newest(s) == ~ChainOnly \/ s = Len(streams)
@@ -97,7 +101,7 @@ Init == /\ heap = <<>> /\ streams = <<>> /\ pending = <<>> /\ execLog = <<>>
         /\ delivered = <<>> /\ ncalls = 0 /\ hist = <<>>
 
 NewDataset(typed) ==
-    /\ Room /\ (PathFocus => ~typed)
+    /\ Room /\ (PathFocus => ~typed) /\ (CrossFocus => ~typed /\ Len(hist) < 2)
     /\ Cardinality({i \in 1..Len(heap) : heap[i].op = "EventDataset"}) < NDatasets
     /\ LET d == Cardinality({i \in 1..Len(heap) : heap[i].op = "EventDataset"}) + 1
            n == Len(heap) + 1
@@ -134,13 +138,26 @@ NewSkim(s) ==
 
 (* Select / Where / SelectMany: a new node whose source IS the parent's node *)
 Derive(s, op, lam) ==
-    /\ Room /\ (On({"imm", "exec", "qmd"}) \/ (PathFocus /\ op = "Select" /\ lam = LMet)) /\ Newest(s)
+    /\ Room /\ (On({"imm", "exec", "qmd"}) \/ (PathFocus /\ op = "Select" /\ lam = LMet)
+                 \/ (CrossFocus /\ op = "Select" /\ lam = LMet /\ Len(hist) >= 2 /\ s = Len(streams))) /\ Newest(s)
     /\ LET p == streams[s]
            n == Len(heap) + 1
        IN /\ heap' = Append(heap, Node(op, p.root, <<Emitted(lam, p.type)>>, NoQmd, 0))
           /\ streams' = Append(streams,
                  NewStream(n, StreamType(op, lam, p.type), Fn(op, <<p.gview, Emitted(lam, p.type)>>), p.gds, p.gqmd))
           /\ hist' = Append(hist, Act("Derive", s, op, lam, "", 0, "", 0))
+    /\ UNCHANGED <<pending, execLog, delivered, ncalls>>
+
+(* stream s gets a Select whose lambda body IS the query of stream o (of another dataset): s.Select(lambda e: <o>) *)
+DeriveCross(s, o) ==
+    /\ Room /\ CrossFocus /\ Len(hist) >= 2 /\ s = Len(streams) /\ o \in 1..Len(streams)
+    /\ RootDs(heap, streams[o].root) # 0 /\ RootDs(heap, streams[o].root) # RootDs(heap, streams[s].root)
+    /\ LET p == streams[s]
+           n == Len(heap) + 1
+       IN /\ heap' = Append(heap, Node("Select", p.root, <<Lam1("e", View(heap, streams[o].root))>>, NoQmd, 0))
+          /\ streams' = Append(streams, NewStream(n, "Any", Fn("Select", <<p.gview, Lam1("e", streams[o].gview)>>),
+                                                  p.gds, p.gqmd))
+          /\ hist' = Append(hist, Act("DeriveCross", s, "Select", Absent, "", 0, "", o))
     /\ UNCHANGED <<pending, execLog, delivered, ncalls>>
 
 MetaDataAct(s, md) ==
@@ -230,7 +247,7 @@ ValueStart(s, title, ovr) ==
 
 (* value(): the synchronous wrapper -- start, executor returns / raises at once, outcome delivered, one step *)
 ValueSync(s, title, kind, val) ==
-    /\ Len(hist) < MaxSteps /\ On({"exec"})
+    /\ Len(hist) < MaxSteps /\ (On({"exec"}) \/ (CrossFocus /\ s = Len(streams) /\ Len(hist) >= 2))
     /\ RootDs(heap, streams[s].root) # 0
     /\ LET p == streams[s]
            c == ncalls + 1
@@ -258,6 +275,7 @@ Next ==
     \/ \E s \in 1..NStreams :
           \/ NewSkim(s)
           \/ \E d \in DeriveOps : Derive(s, d[1], d[2])
+          \/ \E o \in 1..NStreams : DeriveCross(s, o)
           \/ \E md \in MDs : MetaDataAct(s, md)
           \/ \E k \in QKeys, v \in QVals : QMetaDataAct(s, k, v)
           \/ \E v1 \in Vals, v2 \in Vals : QMetaData2Act(s, v1, v2)
